@@ -223,6 +223,25 @@ def spectrum_to(case, ctx):
             if not close(np.asarray(s.value), want, 1e-11):
                 raise Violation("C14.spectrum.flux", f"{cur_vu}->{step} of a spectrum differs from the definition")
             cur_vu = step
+    # the whole path handed over in ONE call: to(*units) - if the call is accepted, the spectrum it leaves is the same
+    # physical spectrum in the final units as after the successive calls (a refusal of more than the documented
+    # (wavelength unit, flux unit) pair is not a violation)
+    if len(case["path"]) >= 2 and (vu is not None or not any(p in FNAMES for p in case["path"])):
+        s3 = make_spectrum(case, wave, value, u, vu)
+        s3.value = edited[1].copy()
+        n_flux = sum(1 for p in case["path"] if p in FNAMES)
+        ctx.tag(f"one_call:flux_units:{min(n_flux, 3)}")
+        try:
+            with np.errstate(all="ignore"):
+                s3.to(*case["path"])
+        except Exception:  # noqa: BLE001
+            ctx.tag("one_call:refused")
+            s3 = None
+        if s3 is not None and not (close(s3.wave, s.wave, 1e-11) and close(s3.value, s.value, 1e-10) and s3.waveunit == s.waveunit
+                                   and s3.valueunit == s.valueunit):
+            raise Violation("C14.spectrum.one_call", f"to{tuple(case['path'])} in one call leaves ({s3.waveunit}, {s3.valueunit}) values "
+                                                     f"{np.asarray(s3.value)[:3]}, the same steps as successive calls leave "
+                                                     f"({s.waveunit}, {s.valueunit}) values {np.asarray(s.value)[:3]}")
     # return to the start: everything restored
     with lentil_call("C14.spectrum.to", "return to the original units"):
         if vu is not None and case["two_arg"]:
